@@ -332,6 +332,19 @@ def stack_methods(F, member):
         if f.get("body") is None or not (f.get("cls") or "").endswith("ExpressionBuilder"):
             continue
         ps = [p["name"] for p in f.get("params", [])]
+        # `void restore_scope(size_t depth) { pop_down_to(frames, depth); }`: a file-local (template) helper that pops the
+        # stack it is handed down to the depth it is handed
+        for c in calls(f["body"]):
+            if len(c.get("args", [])) == 2 and member in short(c["args"][0]) and ps and \
+                    any(x.get("k") == "ref" and x.get("name") in ps for x in walk(c["args"][1])):
+                for t in F.fns(c.get("fn") or "") or [g for g in F.functions.values() if g.get("name") == c.get("name") and not g.get("cls")]:
+                    if t.get("body") is None or t.get("cls") or len(t.get("params", [])) != 2:
+                        continue
+                    sp, dp = t["params"][0]["name"], t["params"][1]["name"]
+                    for n2 in walk(t["body"]):
+                        if n2.get("k") in ("while", "for") and "size" in short(n2.get("c") or {}) and sp in short(n2.get("c") or {}) and \
+                                dp in short(n2.get("c") or {}) and "pop" in short(n2.get("body") or {}) and sp in short(n2.get("body") or {}):
+                            closers.add(f["name"])
         for n in walk(f["body"]):
             if n.get("k") in ("while", "for") and ps and \
                     any(c.get("name") == "size" and member in short(c) for c in calls(n.get("c") or {})) and \
